@@ -38,7 +38,7 @@ def shape_key(E):
             drift = True
         if v["disc"]:
             seen_dis = False if not v["dis"] else seen_dis
-    return dict(disabled_before_implicit=drift)
+    return dict(disabled_before_implicit=drift, repr_mode=E.get("repr_mode", "plain"))
 
 
 def run(tier, seed, rep):
@@ -58,7 +58,10 @@ def run(tier, seed, rep):
         by_id = {E["id"]: E for E in defs}
         files = {E["id"]: RG.fromrepr_module(E) for E in defs}
         exe, failed = pipe.build_corpus("c06", files)
-        report_compile_failures(rep, failed, by_id, files, "FromRepr (incl. the const-context use)")
+        for did_, msgs in failed.items():
+            rep.violation(dict(kind="compile_error", msg=msgs[0][:40], repr_mode=by_id[did_].get("repr_mode", "plain")),
+                          "in-domain FromRepr definition does not compile (the driver calls from_repr with the #[repr] integer type): " + msgs[0][:160],
+                          dict(definition=by_id[did_], errors=msgs, files={"def.rs": files[did_]}))
         evs = pipe.run_driver(exe, PROP, {}, seed)
         groups = pipe.group_by_def(by_id, evs)
         mism = pipe.validate_groups("Trace_Repr", groups, PROP, rep, shard_bytes=1_500_000, canary=canary)
